@@ -999,10 +999,12 @@ func (h *hist) reorgBlockWithUndone(parent *refchain.Node, undone []*refchain.Tx
 	}
 	var txs []*refchain.Tx
 	var fees uint64
+	wsum := 4000
 	include := func(t *refchain.Tx) bool {
-		if !refchain.IsFinal(t, parent.Height+1, parent.MTP()) {
+		if !refchain.IsFinal(t, parent.Height+1, parent.MTP()) || wsum+t.Weight() > 3800000 {
 			return false
 		}
+		wsum += t.Weight()
 		var in, out uint64
 		seen := map[OP]bool{}
 		for _, i := range t.In {
